@@ -115,6 +115,9 @@ impl QfSut {
 }
 
 impl Sut for QfSut {
+    fn config(&self) -> Value {
+        json!([self.f.bits_quotient(), self.f.bits_remainder()])
+    }
     const TAG: &'static str = "qf";
     fn new(cfg: &Value) -> Self {
         let u = Rc::new(build_universe(cfg));
